@@ -1,6 +1,7 @@
 package props
 
 import (
+	"encoding/json"
 	"fmt"
 	"sort"
 	"time"
@@ -237,7 +238,7 @@ type c04op struct {
 	b    int
 }
 
-const c04NOps = 60
+const c04NOps = 63
 
 func (c *c04) apply(op c04op, client int) bool {
 	r := c.r
@@ -509,6 +510,49 @@ func (c *c04) apply(op c04op, client int) bool {
 		case 57:
 			desc = "new input slice"
 			c.newInput(op.a, op.b)
+
+		// ---- monoid.MergeSeq: Combine / Reduce over live Seqs (the left operand is not the library's to extend)
+		case 60:
+			sid := c.pickFrom(c.seqs, op.sel)
+			oid := c.pickFrom(c.seqs, op.sel2)
+			if sid < 0 || oid < 0 {
+				return
+			}
+			nontriv(sid)
+			desc = fmt.Sprintf("monoid.MergeSeq.Combine(seq %d, seq %d)", sid, oid)
+			m := monoid.MergeSeq[int]()
+			c.addSeq(m.Combine(c.seqV[sid], c.seqV[oid]), fmt.Sprintf("s%d.MergeSeq(s%d)", sid, oid), sid, -1)
+			c.addSeq(m.Combine(c.seqV[sid], fp.Seq[int]{op.a}), fmt.Sprintf("s%d.MergeSeq([%d])", sid, op.a), sid, -1)
+		case 61:
+			sid := c.pickFrom(c.seqs, op.sel)
+			oid := c.pickFrom(c.seqs, op.sel2)
+			if sid < 0 || oid < 0 {
+				return
+			}
+			nontriv(sid)
+			desc = fmt.Sprintf("seq/list.Reduce(MergeSeq) over [seq %d, seq %d, [%d]]", sid, oid, op.b)
+			parts := fp.Seq[fp.Seq[int]]{c.seqV[sid], c.seqV[oid], {op.b}}
+			c.addSeq(seq.Reduce(parts, monoid.MergeSeq[int]()), fmt.Sprintf("Reduce(s%d,s%d)", sid, oid), sid, -1)
+			c.addSeq(list.Reduce(list.Of(parts...), monoid.MergeSeq[int]()), fmt.Sprintf("list.Reduce(s%d,s%d)", sid, oid), sid, -1)
+
+		// ---- an Option holding a slice / map is decoded over while an older copy of it is still alive
+		case 62:
+			desc = "json.Unmarshal into a variable holding Some(slice) / Some(map); the earlier Option values stay in the pool"
+			box := struct {
+				S fp.Option[[]int]
+				M fp.Option[map[string]int]
+			}{fp.Some([]int{op.a, op.b, 3}), fp.Some(map[string]int{"a": op.a})}
+			oldS, oldM := box.S, box.M
+			c.addOther("Option[[]int] (before a decode into the same variable)", func() string { return fmt.Sprint(oldS) })
+			c.addOther("Option[map] (before a decode into the same variable)", func() string { return fmt.Sprint(oldM) })
+			if err := json.Unmarshal([]byte(fmt.Sprintf(`{"S":[%d,8],"M":{"b":%d}}`, op.b+50, op.b)), &box); err != nil {
+				r.Violate("map-panic", "decoding into an Option failed: %v", err)
+				ok = false
+				return
+			}
+			newS, newM := box.S, box.M
+			c.addOther("Option[[]int] (decoded)", func() string { return fmt.Sprint(newS) })
+			c.addOther("Option[map] (decoded)", func() string { return fmt.Sprint(newM) })
 
 		// ---- builders kept after Build
 		case 58, 59:
